@@ -1066,4 +1066,357 @@ theorem srcSet_inv {c : Cfg} {s i : Nat} {v : Int} {w w' : World} {log : List En
     obtain ⟨v0, hv0⟩ := hi.consts _ _ _ _ htg hd hc
     exact hsome p v0 hv0
 
+/-! ### every operation keeps the invariant -/
+
+
+/-- every operation keeps the invariant, whatever its outcome — except a source update that raises
+from inside `_sync_refs` (a watcher failure; see `linked_value_tracks_reference_full_refuted`) -/
+theorem step_inv {c : Cfg} {op : Op} {w w' : World} {res : Res} {log : List Entry}
+    (hi : Inv c w) (h : step c op w = (res, w', log))
+    (hsrc : ∀ s i v, op = .srcSet s i v → res = .ok) : Inv c w' := by
+  unfold step at h
+  split at h
+  · simp at h; rw [← h.2.1]; exact hi
+  · cases op with
+    | set t p rhs =>
+      simp only at h
+      split at h
+      · simp at h; rw [← h.2.1]; exact hi
+      · cases hs : setInst c t p rhs w with
+        | mk r q =>
+          obtain ⟨w1, evs⟩ := q
+          rw [hs] at h; simp at h
+          rw [← h.2.1]; exact setInst_inv hi hs
+    | setCls t p rhs => exact setCls_inv hi h
+    | update t kvs =>
+      simp only at h
+      split at h
+      · exact update_inv hi h
+      · simp at h; rw [← h.2.1]; exact hi
+    | ctxEnter t kvs =>
+      simp only at h
+      split at h
+      · exact ctxEnter_inv hi h
+      · simp at h; rw [← h.2.1]; exact hi
+    | ctxExit => exact ctxExit_inv hi h
+    | srcSet s i v =>
+      simp only at h
+      have := hsrc s i v rfl
+      subst this
+      exact srcSet_inv hi h
+
+
+/-! ### frames -/
+
+
+theorem decls_of_decl {c : Cfg} {t p : Nat} {d : PDecl} (hd : c.decl t p = some d) : ∃ ds, c.decls[t]? = some ds := by
+  unfold Cfg.decl at hd
+  cases h : c.decls[t]? with
+  | none => simp [h] at hd
+  | some ds => exact ⟨ds, rfl⟩
+
+/-- the world after `applyRelink` on a world whose target t has just been stored into -/
+theorem applyRelink_form {c : Cfg} {t p : Nat} {d : PDecl} {rl : Relink} {w : World} {tg : Target} {vals' : List (Option Val)}
+    (htg : w.tgts[t]? = some tg) (hd : c.decl t p = some d) :
+    ∃ refs' watch', applyRelink c t p rl { w with tgts := w.tgts.set t { tg with vals := vals' } } =
+        { w with watch := watch', tgts := w.tgts.set t { tg with vals := vals', refs := refs' } } ∧
+      (match rl with
+        | .keep => refs' = tg.refs ∧ watch' = w.watch
+        | .drop => refs' = dictDel tg.refs p ∧ watch' = w.watch
+        | .link r => refs' = dictSet tg.refs p r ∧
+            ∃ ds, c.decls[t]? = some ds ∧ watch' = setupRefs c t (allDeps ds refs') (unwatchAll t w.watch)) := by
+  have hget := fun t' x => tgts_set_get w.tgts t t' x tg htg
+  cases rl with
+  | keep => exact ⟨tg.refs, w.watch, by simp [applyRelink], rfl, rfl⟩
+  | drop => exact ⟨dictDel tg.refs p, w.watch, by simp [applyRelink, hget, World.setTgt, List.set_set], rfl, rfl⟩
+  | link r =>
+    obtain ⟨ds, hds⟩ := decls_of_decl hd
+    exact ⟨dictSet tg.refs p r, _, by simp [applyRelink, updateRef, hget, hds, List.set_set], rfl, ds, hds, rfl⟩
+
+/-- `t.p = rhs`, whatever the outcome: sources and open contexts untouched, other targets untouched,
+and in target t every parameter other than p keeps its value and its link -/
+theorem setInst_frame {c : Cfg} {t p : Nat} {rhs : Rhs} {w w' : World} {res : Res} {evs : List (Nat × Val)}
+    {tg : Target} (htg : w.tgts[t]? = some tg) (h : setInst c t p rhs w = (res, w', evs)) :
+    w'.src = w.src ∧ w'.stack = w.stack ∧ (∀ t', t' ≠ t → w'.tgts[t']? = w.tgts[t']?) ∧
+    ∃ tg', w'.tgts[t]? = some tg' ∧ tg'.dflt = tg.dflt ∧
+      ∀ q, q ≠ p → dictGet tg'.refs q = dictGet tg.refs q ∧ tg'.vals[q]? = tg.vals[q]? := by
+  have same : w' = w → w'.src = w.src ∧ w'.stack = w.stack ∧ (∀ t', t' ≠ t → w'.tgts[t']? = w.tgts[t']?) ∧
+      ∃ tg', w'.tgts[t]? = some tg' ∧ tg'.dflt = tg.dflt ∧
+        ∀ q, q ≠ p → dictGet tg'.refs q = dictGet tg.refs q ∧ tg'.vals[q]? = tg.vals[q]? := by
+    intro e; subst e; exact ⟨rfl, rfl, fun _ _ => rfl, tg, htg, rfl, fun _ _ => ⟨rfl, rfl⟩⟩
+  cases res with
+  | raised e => exact same (setInst_raised h).1
+  | ok =>
+    unfold setInst at h
+    simp only [htg] at h
+    split at h
+    · rename_i tg0 d heq hd
+      simp at heq; subst heq
+      split at h
+      · rename_i old v rl hold hres
+        obtain ⟨v0, vals', _, _, _, hvals, hw⟩ := setCore_ok_form htg h
+        obtain ⟨refs', watch', hform, hrl⟩ := applyRelink_form (rl := rl) (vals' := vals') htg hd
+        rw [hform] at hw; subst hw
+        have hget := fun t' x => tgts_set_get w.tgts t t' x tg htg
+        refine ⟨rfl, rfl, fun t' hne => ?_, { tg with vals := vals', refs := refs' }, ?_, rfl, ?_⟩
+        · simp only [hget]; rw [if_neg (fun e => hne e.symm)]
+        · simp only [hget]; simp
+        intro q hq
+        constructor
+        · cases rl with
+          | keep => simp only at hrl; rw [hrl.1]
+          | drop => simp only at hrl; rw [hrl.1]; exact dictGet_dictDel_ne _ _ _ hq
+          | link r => simp only at hrl; rw [hrl.1]; exact dictGet_dictSet_ne _ _ _ _ hq
+        · rcases hvals with e | ⟨e, _⟩
+          · subst e; simp [List.getElem?_set_ne (fun e => hq e.symm)]
+          · subst e; rfl
+      · simp at h
+    · simp at h
+
+/-! ### construction -/
+
+
+theorem dedupKeys_keys_sub : ∀ (l : List (Nat × Rhs)) (k : Nat), k ∈ (dedupKeys l).map (·.1) → k ∈ l.map (·.1) := by
+  intro l
+  induction l with
+  | nil => intro k h; simp [dedupKeys] at h
+  | cons a l ih =>
+    intro k h
+    obtain ⟨k0, v0⟩ := a
+    simp only [dedupKeys] at h
+    split at h
+    · simp only [List.map_cons, List.mem_cons] at h ⊢
+      rcases h with e | h
+      · exact Or.inl e
+      · right; apply ih
+        simp only [List.mem_map] at h ⊢
+        obtain ⟨x, hx, rfl⟩ := h
+        exact ⟨x, (List.mem_filter.1 hx).1, rfl⟩
+    · simp only [List.map_cons, List.mem_cons] at h ⊢
+      rcases h with e | h
+      · exact Or.inl e
+      · exact Or.inr (ih k h)
+
+theorem dedupKeys_nodup : ∀ (l : List (Nat × Rhs)), ((dedupKeys l).map (·.1)).Nodup := by
+  intro l
+  induction l with
+  | nil => simp [dedupKeys]
+  | cons a l ih =>
+    obtain ⟨k0, v0⟩ := a
+    simp only [dedupKeys]
+    split
+    · simp only [List.map_cons, List.nodup_cons]
+      refine ⟨?_, List.Nodup.sublist (List.Sublist.map _ List.filter_sublist) ih⟩
+      simp [List.mem_map, List.mem_filter]
+    · rename_i hnone
+      simp only [List.map_cons, List.nodup_cons]
+      refine ⟨?_, ih⟩
+      simp only [List.find?_eq_none] at hnone
+      intro hm
+      simp only [List.mem_map] at hm
+      obtain ⟨x, hx, e⟩ := hm
+      exact hnone x hx (by simp [e])
+
+/-- what the keyword loop of the constructor maintains about the instance under construction -/
+structure CtorOK (c : Cfg) (ds : List PDecl) (w : World) (vals0 : List (Option Val)) (tg : Target) : Prop where
+  links : ∀ (p : Nat) (r : Rhs), (p, r) ∈ tg.refs → ∃ d v, ds[p]? = some d ∧ d.allowRefs = true ∧
+    resolveRhs c w r d.nestedRefs = some v ∧ tg.vals[p]? = some (some v)
+  nodup : keysNodup tg.refs
+  somes : ∀ (q : Nat) (v : Val), vals0[q]? = some (some v) → ∃ v', tg.vals[q]? = some (some v')
+  len : tg.vals.length = vals0.length
+
+theorem ctorKeys_ok {c : Cfg} {ds : List PDecl} {w : World} {vals0 : List (Option Val)} :
+    ∀ (kws : List (Nat × Rhs)) {tg tg' : Target}, (kws.map (·.1)).Nodup →
+    (∀ p r, (p, r) ∈ tg.refs → p ∉ kws.map (·.1)) → ds.length ≤ vals0.length →
+    CtorOK c ds w vals0 tg → ctorKeys c ds w kws tg = (.ok, tg') → CtorOK c ds w vals0 tg' ∧ tg'.dflt = tg.dflt := by
+  intro kws
+  induction kws with
+  | nil => intro tg tg' _ _ _ hok h; simp [ctorKeys] at h; subst h; exact ⟨hok, rfl⟩
+  | cons kv rest ih =>
+    intro tg tg' hnd hfresh hlen hok h
+    obtain ⟨k, rhs⟩ := kv
+    simp only [List.map_cons, List.nodup_cons] at hnd
+    simp only [ctorKeys] at h
+    split at h
+    · simp at h
+    · rename_i d hd
+      split at h
+      · simp at h
+      · simp at h
+      · rename_i v rl hres
+        split at h
+        · simp at h
+        · split at h
+          · simp at h
+          · rename_i hvalid hro
+            have hk : k < tg.vals.length := by
+              rw [hok.len]
+              have : k < ds.length := by
+                by_cases hlt : k < ds.length
+                · exact hlt
+                · exfalso; have : ds[k]? = none := by simp; omega
+                  rw [this] at hd; cases hd
+              omega
+            have hfreshk : ∀ r, (k, r) ∉ tg.refs := fun r hm => hfresh k r hm (by simp)
+            -- the state after this keyword
+            have hold : ∀ p r, (p, r) ∈ tg.refs → ∃ d v', ds[p]? = some d ∧ d.allowRefs = true ∧
+                resolveRhs c w r d.nestedRefs = some v' ∧ (tg.vals.set k (some v))[p]? = some (some v') := by
+              intro p r hm
+              obtain ⟨d', v', h1, h2, h3, h4⟩ := hok.links p r hm
+              have hne : k ≠ p := fun e => hfreshk r (by rw [e]; exact hm)
+              exact ⟨d', v', h1, h2, h3, by rw [List.getElem?_set_ne hne]; exact h4⟩
+            have hsomes : ∀ (q : Nat) (v0 : Val), vals0[q]? = some (some v0) → ∃ v', (tg.vals.set k (some v))[q]? = some (some v') := by
+              intro q v0 hv0
+              by_cases e : k = q
+              · subst e; exact ⟨v, by simp [hk]⟩
+              · obtain ⟨v', hv'⟩ := hok.somes q v0 hv0
+                exact ⟨v', by rw [List.getElem?_set_ne e]; exact hv'⟩
+            have hfresh0 : ∀ p r, (p, r) ∈ tg.refs → p ∉ rest.map (·.1) :=
+              fun p r hp hin => hfresh p r hp (by simp [hin])
+            have plain : ∀ {tg'' : Target}, ctorKeys c ds w rest { vals := tg.vals.set k (some v), dflt := tg.dflt, refs := tg.refs } = (.ok, tg'') →
+                CtorOK c ds w vals0 tg'' ∧ tg''.dflt = tg.dflt := fun h' =>
+              ih (tg := { vals := tg.vals.set k (some v), dflt := tg.dflt, refs := tg.refs }) hnd.2 hfresh0 hlen
+                ⟨hold, hok.nodup, hsomes, by simp [hok.len]⟩ h'
+            cases rl with
+            | keep => exact plain h
+            | drop => exact plain h
+            | link r =>
+              simp only at h
+              have hstep : CtorOK c ds w vals0 { vals := tg.vals.set k (some v), dflt := tg.dflt, refs := tg.refs ++ [(k, r)] } := by
+                refine ⟨?_, ?_, hsomes, by simp [hok.len]⟩
+                · intro p r' hm
+                  simp only [List.mem_append, List.mem_singleton] at hm
+                  rcases hm with hm | e
+                  · exact hold p r' hm
+                  · have e1 := (Prod.mk.inj e).1; have e2 := (Prod.mk.inj e).2; subst e1 e2
+                    unfold resolveForSet at hres
+                    split at hres
+                    · simp at hres
+                    · split at hres
+                      · split at hres <;> simp at hres
+                      · rename_i hallow
+                        split at hres
+                        · simp at hres
+                        · split at hres
+                          · rename_i v1 hv1
+                            simp at hres
+                            obtain ⟨e1, e2⟩ := hres; subst e1 e2
+                            exact ⟨d, v1, hd, by simpa using hallow, hv1, by simp [hk]⟩
+                          · simp at hres
+                · have := hok.nodup
+                  unfold keysNodup at this ⊢
+                  rw [List.map_append, List.nodup_append]
+                  refine ⟨this, by simp, ?_⟩
+                  intro a ha b hb
+                  simp at hb; subst hb
+                  intro e; subst e
+                  simp only [List.mem_map] at ha
+                  obtain ⟨x, hx, e⟩ := ha
+                  exact hfreshk x.2 (by rw [← e]; exact hx)
+              have hfresh' : ∀ p r', (p, r') ∈ tg.refs ++ [(k, r)] → p ∉ rest.map (·.1) := by
+                intro p r' hm
+                simp only [List.mem_append, List.mem_singleton] at hm
+                rcases hm with hm | e
+                · exact hfresh0 p r' hm
+                · rw [(Prod.mk.inj e).1]; exact hnd.1
+              exact ih (tg := { vals := tg.vals.set k (some v), dflt := tg.dflt, refs := tg.refs ++ [(k, r)] })
+                hnd.2 hfresh' hlen hstep h
+
+/-- constructing the next target — with any keyword arguments: plain values and references of
+every kind — keeps the invariant: links made by the constructor are tracked and watched -/
+theorem construct_inv {c : Cfg} {dflt : List Val} {kws : List (Nat × Rhs)} {w w' : World}
+    (hi : Inv c w) (hlen : ∀ ds, c.decls[w.tgts.length]? = some ds → ds.length ≤ dflt.length)
+    (h : construct c dflt kws w = (.ok, w')) : Inv c w' := by
+  unfold construct at h
+  simp only at h
+  split at h
+  · simp at h
+  · rename_i ds hds
+    split at h
+    · simp at h
+    · split at h
+      · rename_i tg hck
+        simp at h; subst h
+        have hl := hlen ds hds
+        have hvals0 : ds.length ≤ ((ds.zip dflt).map fun (d, v) => if d.constant || d.readonly then some v else none).length := by
+          simp; omega
+        have hinit : CtorOK c ds w ((ds.zip dflt).map fun (d, v) => if d.constant || d.readonly then some v else none)
+            { vals := (ds.zip dflt).map fun (d, v) => if d.constant || d.readonly then some v else none, dflt := dflt, refs := [] } :=
+          ⟨(by intro p r hm; cases hm), (by simp [keysNodup]), (fun q v hv => ⟨v, hv⟩), rfl⟩
+        obtain ⟨hok, _⟩ := ctorKeys_ok (dedupKeys kws) (dedupKeys_nodup kws) (by intro p r hm; cases hm) hvals0 hinit hck
+        have hold : ∀ t', t' < w.tgts.length → (w.tgts ++ [tg])[t']? = w.tgts[t']? :=
+          fun t' hlt => List.getElem?_append_left hlt
+        have hnew : (w.tgts ++ [tg])[w.tgts.length]? = some tg := by simp
+        have classify : ∀ (t' : Nat) (tg' : Target), (w.tgts ++ [tg])[t']? = some tg' →
+            (t' < w.tgts.length ∧ w.tgts[t']? = some tg') ∨ (t' = w.tgts.length ∧ tg' = tg) := by
+          intro t' tg' ht
+          by_cases hlt : t' < w.tgts.length
+          · left; exact ⟨hlt, by rw [← hold t' hlt]; exact ht⟩
+          · right
+            by_cases e : t' = w.tgts.length
+            · subst e; rw [hnew] at ht; exact ⟨rfl, (Option.some.inj ht).symm⟩
+            · exfalso
+              have : (w.tgts ++ [tg])[t']? = none := by simp; omega
+              rw [this] at ht; cases ht
+        have hdecl := fun p => decl_of_decls hds p
+        refine ⟨?_, ?_, ?_, ?_, ?_⟩
+        · intro t' tg' p r d v ht hm hd hres hvalid
+          have hres' : resolveRhs c w r d.nestedRefs = some v := by
+            rw [← hres]; exact (resolveRhs_congr rfl r _).symm
+          rcases classify t' tg' ht with ⟨_, ht'⟩ | ⟨e1, e2⟩
+          · exact hi.tracks _ _ _ _ _ _ ht' hm hd hres' hvalid
+          · subst e1 e2
+            obtain ⟨d', v', h1, _, h3, h4⟩ := hok.links p r hm
+            rw [hdecl p, h1] at hd; cases hd
+            rw [h3] at hres'; cases hres'; exact h4
+        · intro t' tg' p r s i ht hm hdep hi' hs
+          simp only [setupRefs_length] at hs
+          rw [setupRefs_get]
+          obtain ⟨ws, hws⟩ : ∃ ws, w.watch[s]? = some ws := ⟨w.watch[s], by simp [hs]⟩
+          rcases classify t' tg' ht with ⟨_, ht'⟩ | ⟨e1, e2⟩
+          · obtain ⟨ws0, names, h1, h2, h3⟩ := hi.watched _ _ _ _ _ _ ht' hm hdep hi' hs
+            rw [h1]; simp only [Option.map_some]
+            refine ⟨_, names, rfl, ?_, h3⟩
+            split
+            · exact h2
+            · exact List.mem_append_left _ h2
+          · subst e1 e2
+            have hall : (s, i) ∈ allDeps ds tg'.refs := (allDeps_mem hds).2 ⟨_, hm, hdep⟩
+            have hin : i ∈ (List.range c.nsp).filter (fun i => (allDeps ds tg'.refs).contains (s, i)) := by
+              simp [List.mem_filter, hi', hall]
+            have hne : ((List.range c.nsp).filter (fun i => (allDeps ds tg'.refs).contains (s, i))).isEmpty = false := by
+              cases hx : (List.range c.nsp).filter (fun i => (allDeps ds tg'.refs).contains (s, i)) with
+              | nil => rw [hx] at hin; cases hin
+              | cons _ _ => rfl
+            refine ⟨_, _, by simp only [hws, Option.map_some, hne]; rfl, ?_, hin⟩
+            simp
+        · intro t' tg' ht
+          rcases classify t' tg' ht with ⟨_, ht'⟩ | ⟨e1, e2⟩
+          · exact hi.nodup _ _ ht'
+          · subst e1 e2; exact hok.nodup
+        · intro t' tg' p r d ht hm hd
+          rcases classify t' tg' ht with ⟨_, ht'⟩ | ⟨e1, e2⟩
+          · exact hi.allow _ _ _ _ _ ht' hm hd
+          · subst e1 e2
+            obtain ⟨d', v', h1, h2, _, _⟩ := hok.links p r hm
+            rw [hdecl p, h1] at hd; cases hd; exact h2
+        · intro t' tg' p d ht hd hc
+          rcases classify t' tg' ht with ⟨_, ht'⟩ | ⟨e1, e2⟩
+          · exact hi.consts _ _ _ _ ht' hd hc
+          · subst e1 e2
+            rw [hdecl p] at hd
+            have hp : p < ds.length := by
+              by_cases hlt : p < ds.length
+              · exact hlt
+              · exfalso; have : ds[p]? = none := by simp; omega
+                rw [this] at hd; cases hd
+            have hd' : ds[p] = d := by simpa [hp] using hd
+            have hpd : p < dflt.length := by omega
+            apply hok.somes p dflt[p]
+            have hz : p < (ds.zip dflt).length := by simp; omega
+            simp only [List.getElem?_map, List.getElem?_eq_getElem hz, List.getElem_zip, hd', Option.map_some, hc,
+              Bool.true_or, if_true]
+      · rename_i hne _
+        simp at h; exact absurd h.1 hne
+
 end ParamVerif.Refs
